@@ -153,8 +153,8 @@ func accessPath(fn *ssa.Function, v ssa.Value, params bool) (string, *types.Var)
 			if base, _ := accessPath(fn, fa.X, params); base != "" {
 				return base + "." + fieldOf(fa).Name(), fieldOf(fa)
 			}
+			return "", nil
 		}
-		return "", nil
 	}
 	if !params && v != nil {
 		if _, isConst := v.(*ssa.Const); !isConst {
